@@ -98,7 +98,12 @@ def stmt(ch, high_ok=False):
     if k == 9:
         return ch.pick(NEAR_SEPARATORS)
     if k == 10 and high_ok:
-        return b's%d="%s"' % (n, bytes(0x80 + b % 0x80 for b in ch.take(1 + ch.below(4))))
+        raw = bytes(0x80 + b % 0x80 for b in ch.take(1 + ch.below(4)))
+        if raw[0] % 4 == 0:
+            # P8SCII bytes that happen to be well-formed UTF-8 (of a glyph of the character set): an included cart's
+            # code has already been decoded once
+            raw = (b'\xc2\xa5', b'\xcb\x87', b'\xe3\x81\x82', b'\xe2\x96\xae \xe2\x97\x8b', b'\xe3\x82\xa2\xe3\x82\xa4')[raw[-1] % 5]
+        return b's%d="%s"' % (n, raw)
     return b'd%d+=1' % n
 
 
